@@ -4,7 +4,7 @@ TB_COMMON = [
     "Lean 4.33 kernel; axioms propext, Classical.choice, Quot.sound only (audited per theorem on every run)",
     "hand-written Lean model tied to /repo by the correspondence check (Rust harness, Lean driver, Python orchestration are trusted)",
     "tools/extract_facts.py (constants regenerated from the source on every run)",
-    "tools/translate_src.py (Rust-subset parser and Lean emitter) and Model/SrcPrelude.lean (Rust's derived Ord) for the functions translated from the source on every run: SyncOp::transform, SyncOp::from_op, Operation::get_uuid, Status::{from,to}_taskmap",
+    "tools/translate_src.py (Rust-subset parser and Lean emitter) and Model/SrcPrelude.lean (Rust's derived Ord) for the functions translated from the source on every run: SyncOp::transform, SyncOp::from_op, Operation::get_uuid, Operation::is_undo_point, Status::{from,to}_taskmap",
 ]
 TB_SYNC = TB_COMMON + [
     "Uuid::new_v4 freshness; the harness-side reference server (in-memory chain) is a correct ChainSpec",
@@ -180,7 +180,7 @@ PROPS = {
     },
     "C07": {
         "module": "TcVerif.Props.C07",
-        "theorems": ["Tc.C07_undo_restores", "Tc.C07_undone_never_sent", "Tc.C07_mismatch_noop", "Tc.C07_no_undo_after_sync",
+        "theorems": ["Tc.C07_source_is_undo_point", "Tc.C07_undo_restores", "Tc.C07_undone_never_sent", "Tc.C07_mismatch_noop", "Tc.C07_no_undo_after_sync",
                      "Tc.C07_get_undo_ops", "Tc.undo_restores"],
         "leanchecker_modules": ["TcVerif.Proofs.Undo"],
         "runs": [
